@@ -307,6 +307,7 @@ pub fn generate(seed: u64, tier: &str, sink: &mut Sink) {
         let obs = run_send(&case);
         let tag = body_tag(&case.body);
         let o: Result<(), (String, String)> = (|| {
+            obs.resend_check(&tag)?;
             if obs.prepare_error.as_deref() == Some("panic") {
                 return Err((format!("prepare-panic-{}", tag), "building or preparing the request panicked".into()));
             }
